@@ -1,94 +1,57 @@
 /-
-  Helper lemmas about GFO.Model.Driver (frame conditions of the step functions).
+  Helper lemmas about GFO.Model.Driver: exact characterisation of what one step, a run of steps and one
+  `search()` call do to the driver state. Everything is parametric in the backend `b`.
 -/
 import GFO.Model.Driver
 namespace GFO
 variable {σ : Type}
 
-/-- everything `scoreStep` leaves alone, and what it appends -/
-structure ScoreFrame (d d' : DState σ) (cs cs' : CState) : Prop where
-  rows : ∃ row, d'.rows = d.rows ++ [row]
-  evalT : ∃ t, d'.evalT = d.evalT ++ [t]
-  posL : d'.posL = d.posL
-  scoreL : d'.scoreL = d.scoreL
-  nInitTotal : d'.nInitTotal = d.nInitTotal
-  nIterTotal : d'.nIterTotal = d.nIterTotal
-  iterT : d'.iterT = d.iterT
-  nInits : d'.nInits = d.nInits
-  bst : d'.bst = d.bst
-  trace : d'.trace = d.trace
-  shared : d'.shared = d.shared
-  pbar : cs'.pbar = cs.pbar
-  stop : cs'.stop = cs.stop
-  nInitSearch : cs'.nInitSearch = cs.nInitSearch
-  nIterSearch : cs'.nIterSearch = cs.nIterSearch
-  nInitsNorm : cs'.nInitsNorm = cs.nInitsNorm
-
-theorem scoreStep_frame {sp : Space} {obj : Obj} {c : Call} {d : DState σ} {cs : CState} {pos : Pos}
+theorem scoreStep_ok {sp : Space} {obj : Obj} {c : Call} {d : DState σ} {cs : CState} {pos : Pos}
     {s : F} {d' : DState σ} {cs' : CState}
-    (h : scoreStep sp obj c d cs pos = .ok (s, d', cs')) : ScoreFrame d d' cs cs' := by
+    (h : scoreStep sp obj c d cs pos = .ok (s, d', cs')) :
+    ∃ v e, position2value sp.dims pos = .ok v ∧ evalAt sp obj c d.nCalls d.rows.length cs.mem cs.calls v = .ok e ∧
+      s = e.res.score ∧ (d', cs') = afterEval sp d cs v e := by
   unfold scoreStep at h
   simp only [bind, Except.bind, pure, Except.pure] at h
   split at h
   · simp at h
-  · split at h
-    · simp only [Except.ok.injEq, Prod.mk.injEq] at h
-      obtain ⟨_, hd, hcs⟩ := h
-      subst hd; subst hcs
-      constructor <;> simp
-    · split at h
-      · simp at h
-      · split at h
-        · simp at h
-        · split at h
-          · simp only [Except.ok.injEq, Prod.mk.injEq] at h
-            obtain ⟨_, hd, hcs⟩ := h
-            subst hd; subst hcs
-            constructor <;> simp
-          · simp only [Except.ok.injEq, Prod.mk.injEq] at h
-            obtain ⟨_, hd, hcs⟩ := h
-            subst hd; subst hcs
-            constructor <;> simp
-end GFO
+  · rename_i v hv
+    split at h
+    · simp at h
+    · rename_i e he
+      simp only [Except.ok.injEq, Prod.mk.injEq] at h
+      obtain ⟨hs, hpair⟩ := h
+      exact ⟨v, e, hv, he, hs.symm, hpair.symm⟩
 
-namespace GFO
-variable {σ : Type}
-
-/-- what one `_initialization` does to the bookkeeping -/
-structure InitFrame (d d' : DState σ) (cs cs' : CState) : Prop where
-  rows : ∃ row, d'.rows = d.rows ++ [row]
-  evalT : ∃ t, d'.evalT = d.evalT ++ [t]
-  iterT : ∃ t, d'.iterT = d.iterT ++ [t]
-  posL : ∃ p, d'.posL = d.posL ++ [p]
-  scoreL : ∃ s, d'.scoreL = d.scoreL ++ [s]
-  nInitTotal : d'.nInitTotal = d.nInitTotal + 1
-  nIterTotal : d'.nIterTotal = d.nIterTotal
+/-- what one step (initialisation or iteration) did: the emitted position, its values, the evaluation outcome -/
+structure StepFacts (sp : Space) (obj : Obj) (c : Call) (i : Nat) (d d' : DState σ) (cs cs' : CState)
+    (p : Pos) (v : Value) (e : Eval) : Prop where
+  hv : position2value sp.dims p = .ok v
+  he : evalAt sp obj c d.nCalls d.rows.length cs.mem cs.calls v = .ok e
+  rows : d'.rows = d.rows ++ [rowOf e.res (value2para sp.names v)]
+  posL : d'.posL = d.posL ++ [p]
+  scoreL : d'.scoreL = d.scoreL ++ [e.res.score]
+  evalT : d'.evalT = d.evalT ++ [e.dur]
+  iterT : d'.iterT = d.iterT ++ [d.clock + e.dur - d.clock]
+  clock : d'.clock = d.clock + e.dur
+  nCalls : d'.nCalls = d.nCalls + (if e.fresh then 1 else 0)
   nInits : d'.nInits = d.nInits
   shared : d'.shared = d.shared
+  pbar : cs'.pbar = pbarUpdate c cs.pbar e.res.score p i
+  mem : cs'.mem = e.mem
+  calls : cs'.calls = e.calls
+  fresh : cs'.fresh = cs.fresh ++ [e.fresh]
   stop : cs'.stop = cs.stop
-  nInitSearch : cs'.nInitSearch = cs.nInitSearch + 1
-  nIterSearch : cs'.nIterSearch = cs.nIterSearch
   nInitsNorm : cs'.nInitsNorm = cs.nInitsNorm
 
-/-- what one `_iteration` does to the bookkeeping -/
-structure IterFrame (d d' : DState σ) (cs cs' : CState) : Prop where
-  rows : ∃ row, d'.rows = d.rows ++ [row]
-  evalT : ∃ t, d'.evalT = d.evalT ++ [t]
-  iterT : ∃ t, d'.iterT = d.iterT ++ [t]
-  posL : ∃ p, d'.posL = d.posL ++ [p]
-  scoreL : ∃ s, d'.scoreL = d.scoreL ++ [s]
-  nInitTotal : d'.nInitTotal = d.nInitTotal
-  nIterTotal : d'.nIterTotal = d.nIterTotal + 1
-  nInits : d'.nInits = d.nInits
-  shared : d'.shared = d.shared
-  stop : cs'.stop = cs.stop
-  nInitSearch : cs'.nInitSearch = cs.nInitSearch
-  nIterSearch : cs'.nIterSearch = cs.nIterSearch + 1
-  nInitsNorm : cs'.nInitsNorm = cs.nInitsNorm
-
-theorem initialization_frame {b : Backend σ} {sp : Space} {obj : Obj} {c : Call} {i : Nat}
+theorem initialization_ok {b : Backend σ} {sp : Space} {obj : Obj} {c : Call} {i : Nat}
     {d d' : DState σ} {cs cs' : CState}
-    (h : initialization b sp obj c i d cs = .ok (d', cs')) : InitFrame d d' cs cs' := by
+    (h : initialization b sp obj c i d cs = .ok (d', cs')) :
+    ∃ p v e, StepFacts sp obj c i d d' cs cs' p v e ∧
+      d'.nInitTotal = d.nInitTotal + 1 ∧ d'.nIterTotal = d.nIterTotal ∧
+      cs'.nInitSearch = cs.nInitSearch + 1 ∧ cs'.nIterSearch = cs.nIterSearch ∧
+      d'.trace = d.trace ++ [Ev.initPos p, Ev.evalInit e.res.score] ∧
+      ∃ bst1, b.initPos d.bst = .ok (p, bst1) ∧ b.evalInit bst1 e.res.score = .ok d'.bst := by
   unfold initialization at h
   simp only [bind, Except.bind, pure, Except.pure] at h
   split at h
@@ -100,21 +63,29 @@ theorem initialization_frame {b : Backend σ} {sp : Space} {obj : Obj} {c : Call
     · simp at h
     · rename_i y hy
       obtain ⟨score, d2, cs2⟩ := y
-      have fr := scoreStep_frame hy
+      obtain ⟨v, e, hv, he, hs, hpair⟩ := scoreStep_ok hy
+      simp only [afterEval, Prod.mk.injEq] at hpair
+      obtain ⟨hd2, hcs2⟩ := hpair
       simp only at h
       split at h
       · simp at h
-      · simp only [Except.ok.injEq, Prod.mk.injEq] at h
+      · rename_i bst3 hb3
+        simp only [Except.ok.injEq, Prod.mk.injEq] at h
         obtain ⟨hd, hcs⟩ := h
-        subst hd; subst hcs
-        obtain ⟨row, hrow⟩ := fr.rows
-        obtain ⟨t, ht⟩ := fr.evalT
-        constructor <;> simp [hrow, ht, fr.posL, fr.scoreL, fr.nInitTotal, fr.nIterTotal, fr.iterT, fr.nInits,
-          fr.shared, fr.stop, fr.nInitSearch, fr.nIterSearch, fr.nInitsNorm]
+        subst hd; subst hcs; subst hd2; subst hcs2; subst hs
+        refine ⟨pos, v, e, ?_, by simp, by simp, by simp, by simp, by simp, bst1, hx, by simpa using hb3⟩
+        exact { hv := hv, he := by simpa using he, rows := by simp, posL := by simp, scoreL := by simp, evalT := by simp
+                iterT := by simp, clock := by simp, nCalls := by simp, nInits := by simp, shared := by simp
+                pbar := by simp, mem := by simp, calls := by simp, fresh := by simp, stop := by simp, nInitsNorm := by simp }
 
-theorem iteration_frame {b : Backend σ} {sp : Space} {obj : Obj} {c : Call} {i : Nat}
+theorem iteration_ok {b : Backend σ} {sp : Space} {obj : Obj} {c : Call} {i : Nat}
     {d d' : DState σ} {cs cs' : CState}
-    (h : iteration b sp obj c i d cs = .ok (d', cs')) : IterFrame d d' cs cs' := by
+    (h : iteration b sp obj c i d cs = .ok (d', cs')) :
+    ∃ p v e, StepFacts sp obj c i d d' cs cs' p v e ∧
+      d'.nInitTotal = d.nInitTotal ∧ d'.nIterTotal = d.nIterTotal + 1 ∧
+      cs'.nInitSearch = cs.nInitSearch ∧ cs'.nIterSearch = cs.nIterSearch + 1 ∧
+      d'.trace = d.trace ++ [Ev.iterate p, Ev.evaluate e.res.score] ∧
+      ∃ bst1, b.iterate d.bst = .ok (p, bst1) ∧ b.evaluate bst1 e.res.score = .ok d'.bst := by
   unfold iteration at h
   simp only [bind, Except.bind, pure, Except.pure] at h
   split at h
@@ -126,41 +97,35 @@ theorem iteration_frame {b : Backend σ} {sp : Space} {obj : Obj} {c : Call} {i 
     · simp at h
     · rename_i y hy
       obtain ⟨score, d2, cs2⟩ := y
-      have fr := scoreStep_frame hy
+      obtain ⟨v, e, hv, he, hs, hpair⟩ := scoreStep_ok hy
+      simp only [afterEval, Prod.mk.injEq] at hpair
+      obtain ⟨hd2, hcs2⟩ := hpair
       simp only at h
       split at h
       · simp at h
-      · simp only [Except.ok.injEq, Prod.mk.injEq] at h
+      · rename_i bst3 hb3
+        simp only [Except.ok.injEq, Prod.mk.injEq] at h
         obtain ⟨hd, hcs⟩ := h
-        subst hd; subst hcs
-        obtain ⟨row, hrow⟩ := fr.rows
-        obtain ⟨t, ht⟩ := fr.evalT
-        constructor <;> simp [hrow, ht, fr.posL, fr.scoreL, fr.nInitTotal, fr.nIterTotal, fr.iterT, fr.nInits,
-          fr.shared, fr.stop, fr.nInitSearch, fr.nIterSearch, fr.nInitsNorm]
-end GFO
+        subst hd; subst hcs; subst hd2; subst hcs2; subst hs
+        refine ⟨pos, v, e, ?_, by simp, by simp, by simp, by simp, by simp, bst1, hx, by simpa using hb3⟩
+        exact { hv := hv, he := by simpa using he, rows := by simp, posL := by simp, scoreL := by simp, evalT := by simp
+                iterT := by simp, clock := by simp, nCalls := by simp, nInits := by simp, shared := by simp
+                pbar := by simp, mem := by simp, calls := by simp, fresh := by simp, stop := by simp, nInitsNorm := by simp }
 
-namespace GFO
-variable {σ : Type}
-
-/-- one `search_step(i)` driven in sequence: exactly one row, exactly one of the two phases -/
-structure StepFrame (i : Nat) (d d' : DState σ) (cs cs' : CState) : Prop where
-  rows : ∃ row, d'.rows = d.rows ++ [row]
-  evalT : ∃ t, d'.evalT = d.evalT ++ [t]
-  iterT : ∃ t, d'.iterT = d.iterT ++ [t]
-  posL : ∃ p, d'.posL = d.posL ++ [p]
-  scoreL : ∃ s, d'.scoreL = d.scoreL ++ [s]
+/-- one `search_step(i)` driven in sequence: exactly one evaluation, exactly one of the two phases -/
+structure StepFrame (sp : Space) (obj : Obj) (c : Call) (i : Nat) (d d' : DState σ) (cs cs' : CState) : Prop where
+  facts : ∃ p v e, StepFacts sp obj c i d d' cs cs' p v e ∧
+    (if i < cs.nInitsNorm then d'.trace = d.trace ++ [Ev.initPos p, Ev.evalInit e.res.score]
+     else d'.trace = d.trace ++ [Ev.iterate p, Ev.evaluate e.res.score] ∨
+          d'.trace = d.trace ++ [Ev.finishInit, Ev.iterate p, Ev.evaluate e.res.score])
   nInitTotal : d'.nInitTotal = d.nInitTotal + (if i < cs.nInitsNorm then 1 else 0)
   nIterTotal : d'.nIterTotal = d.nIterTotal + (if i < cs.nInitsNorm then 0 else 1)
-  nInits : d'.nInits = d.nInits
-  shared : d'.shared = d.shared
-  stop : cs'.stop = cs.stop
   nInitSearch : cs'.nInitSearch = min (i + 1) cs.nInitsNorm
-  nInitsNorm : cs'.nInitsNorm = cs.nInitsNorm
 
 theorem searchStep_frame {b : Backend σ} {sp : Space} {obj : Obj} {c : Call} {i : Nat}
     {d d' : DState σ} {cs cs' : CState}
     (hinv : cs.nInitSearch = min i cs.nInitsNorm) (hi : i < c.nIter)
-    (h : searchStep b sp obj c i d cs = .ok (d', cs')) : StepFrame i d d' cs cs' := by
+    (h : searchStep b sp obj c i d cs = .ok (d', cs')) : StepFrame sp obj c i d d' cs cs' := by
   unfold searchStep at h
   simp only [bind, Except.bind, pure, Except.pure] at h
   by_cases hlt : i < cs.nInitsNorm
@@ -170,24 +135,16 @@ theorem searchStep_frame {b : Backend σ} {sp : Space} {obj : Obj} {c : Call} {i
     · simp at h
     · rename_i x hx
       obtain ⟨d1, cs1⟩ := x
-      have fr := initialization_frame hx
-      have h1 : cs1.nInitSearch = i + 1 := by rw [fr.nInitSearch, hinv]; omega
+      obtain ⟨p, v, e, sf, h1, h2, h3, _, htr, _⟩ := initialization_ok hx
+      have h1' : cs1.nInitSearch = i + 1 := by rw [h3, hinv]; omega
       have hne : ¬ (i = cs1.nInitSearch) := by omega
       have hnle : ¬ (cs1.nInitSearch ≤ i ∧ i < c.nIter) := by omega
       simp only [if_neg hne, if_neg hnle, Except.ok.injEq, Prod.mk.injEq] at h
       obtain ⟨hd, hcs⟩ := h
       subst hd; subst hcs
-      obtain ⟨row, hrow⟩ := fr.rows
-      obtain ⟨t, ht⟩ := fr.evalT
-      obtain ⟨t2, ht2⟩ := fr.iterT
-      obtain ⟨p, hp⟩ := fr.posL
-      obtain ⟨s, hs⟩ := fr.scoreL
-      exact { rows := ⟨row, hrow⟩, evalT := ⟨t, ht⟩, iterT := ⟨t2, ht2⟩, posL := ⟨p, hp⟩, scoreL := ⟨s, hs⟩
-              nInitTotal := by simp [fr.nInitTotal, hlt]
-              nIterTotal := by simp [fr.nIterTotal, hlt]
-              nInits := fr.nInits, shared := fr.shared, stop := fr.stop
-              nInitSearch := by rw [h1]; omega
-              nInitsNorm := fr.nInitsNorm }
+      exact { facts := ⟨p, v, e, sf, by simp [hlt, htr]⟩
+              nInitTotal := by simp [h1, hlt], nIterTotal := by simp [h2, hlt]
+              nInitSearch := by rw [h1']; omega }
   · -- iteration phase
     simp only [if_neg hlt] at h
     have h0 : cs.nInitSearch = cs.nInitsNorm := by rw [hinv]; omega
@@ -198,38 +155,25 @@ theorem searchStep_frame {b : Backend σ} {sp : Space} {obj : Obj} {c : Call} {i
       · simp at h
       · rename_i bst hb
         simp only [if_pos hle] at h
-        have fr := iteration_frame h
-        obtain ⟨row, hrow⟩ := fr.rows
-        obtain ⟨t, ht⟩ := fr.evalT
-        obtain ⟨t2, ht2⟩ := fr.iterT
-        obtain ⟨p, hp⟩ := fr.posL
-        obtain ⟨s, hs⟩ := fr.scoreL
-        exact { rows := ⟨row, by simpa using hrow⟩, evalT := ⟨t, by simpa using ht⟩, iterT := ⟨t2, by simpa using ht2⟩
-                posL := ⟨p, by simpa using hp⟩, scoreL := ⟨s, by simpa using hs⟩
-                nInitTotal := by simpa [hlt] using fr.nInitTotal
-                nIterTotal := by simpa [hlt] using fr.nIterTotal
-                nInits := by simpa using fr.nInits, shared := by simpa using fr.shared, stop := fr.stop
-                nInitSearch := by rw [fr.nInitSearch, h0]; omega
-                nInitsNorm := fr.nInitsNorm }
+        obtain ⟨p, v, e, sf, h1, h2, h3, _, htr, _⟩ := iteration_ok h
+        exact { facts := ⟨p, v, e,
+                  { hv := sf.hv, he := by simpa using sf.he, rows := by simpa using sf.rows, posL := by simpa using sf.posL
+                    scoreL := by simpa using sf.scoreL, evalT := by simpa using sf.evalT, iterT := by simpa using sf.iterT
+                    clock := by simpa using sf.clock, nCalls := by simpa using sf.nCalls, nInits := by simpa using sf.nInits
+                    shared := by simpa using sf.shared, pbar := sf.pbar, mem := sf.mem, calls := sf.calls, fresh := sf.fresh
+                    stop := sf.stop, nInitsNorm := sf.nInitsNorm },
+                  by simp only [if_neg hlt]; right; simpa using htr⟩
+                nInitTotal := by simpa [hlt] using h1, nIterTotal := by simpa [hlt] using h2
+                nInitSearch := by rw [h3, h0]; omega }
     · simp only [if_neg heq, if_pos hle] at h
-      have fr := iteration_frame h
-      obtain ⟨row, hrow⟩ := fr.rows
-      obtain ⟨t, ht⟩ := fr.evalT
-      obtain ⟨t2, ht2⟩ := fr.iterT
-      obtain ⟨p, hp⟩ := fr.posL
-      obtain ⟨s, hs⟩ := fr.scoreL
-      exact { rows := ⟨row, hrow⟩, evalT := ⟨t, ht⟩, iterT := ⟨t2, ht2⟩, posL := ⟨p, hp⟩, scoreL := ⟨s, hs⟩
-              nInitTotal := by simpa [hlt] using fr.nInitTotal
-              nIterTotal := by simpa [hlt] using fr.nIterTotal
-              nInits := fr.nInits, shared := fr.shared, stop := fr.stop
-              nInitSearch := by rw [fr.nInitSearch, h0]; omega
-              nInitsNorm := fr.nInitsNorm }
-end GFO
+      obtain ⟨p, v, e, sf, h1, h2, h3, _, htr, _⟩ := iteration_ok h
+      exact { facts := ⟨p, v, e, sf, by simp only [if_neg hlt]; left; exact htr⟩
+              nInitTotal := by simpa [hlt] using h1, nIterTotal := by simpa [hlt] using h2
+              nInitSearch := by rw [h3, h0]; omega }
 
-namespace GFO
-variable {σ : Type}
+/-! ### runs of steps -/
 
-/-- bookkeeping after `k - i` consecutive steps `i, i+1, …, k-1` of one call -/
+/-- bookkeeping after the consecutive steps `i, i+1, …, k-1` of one call -/
 structure LoopFrame (i k : Nat) (d d' : DState σ) (cs cs' : CState) : Prop where
   rows : d'.rows.length = d.rows.length + (k - i)
   rowsPrefix : ∃ new, d'.rows = d.rows ++ new
@@ -251,24 +195,21 @@ theorem LoopFrame.refl (i : Nat) (d : DState σ) (cs : CState) (hinv : cs.nInitS
     nInitTotal := by simp, nIterTotal := by simp, nInits := rfl, shared := rfl, stop := rfl
     nInitSearch := hinv, nInitsNorm := rfl }
 
-theorem LoopFrame.step {i k : Nat} {d d1 d' : DState σ} {cs cs1 cs' : CState}
-    (hs : StepFrame i d d1 cs cs1) (hl : LoopFrame (i + 1) k d1 d' cs1 cs') (hik : i + 1 ≤ k) :
+theorem LoopFrame.step {sp : Space} {obj : Obj} {c : Call} {i k : Nat} {d d1 d' : DState σ} {cs cs1 cs' : CState}
+    (hs : StepFrame sp obj c i d d1 cs cs1) (hl : LoopFrame (i + 1) k d1 d' cs1 cs') (hik : i + 1 ≤ k) :
     LoopFrame i k d d' cs cs' := by
-  obtain ⟨row, hrow⟩ := hs.rows
-  obtain ⟨t, ht⟩ := hs.evalT
-  obtain ⟨t2, ht2⟩ := hs.iterT
-  obtain ⟨p, hp⟩ := hs.posL
-  obtain ⟨s, hsc⟩ := hs.scoreL
+  obtain ⟨p, v, e, sf, _⟩ := hs.facts
   obtain ⟨new, hnew⟩ := hl.rowsPrefix
-  have hn := hs.nInitsNorm
-  refine { rows := ?_, rowsPrefix := ⟨[row] ++ new, by rw [hnew, hrow]; simp⟩, evalT := ?_, iterT := ?_, posL := ?_, scoreL := ?_
-           nInitTotal := ?_, nIterTotal := ?_, nInits := by rw [hl.nInits, hs.nInits], shared := by rw [hl.shared, hs.shared]
-           stop := by rw [hl.stop, hs.stop], nInitSearch := by rw [hl.nInitSearch, hn], nInitsNorm := by rw [hl.nInitsNorm, hn] }
-  · rw [hl.rows, hrow]; simp; omega
-  · rw [hl.evalT, ht]; simp; omega
-  · rw [hl.iterT, ht2]; simp; omega
-  · rw [hl.posL, hp]; simp; omega
-  · rw [hl.scoreL, hsc]; simp; omega
+  have hn := sf.nInitsNorm
+  refine { rows := ?_, rowsPrefix := ⟨[rowOf e.res (value2para sp.names v)] ++ new, by rw [hnew, sf.rows]; simp⟩
+           evalT := ?_, iterT := ?_, posL := ?_, scoreL := ?_
+           nInitTotal := ?_, nIterTotal := ?_, nInits := by rw [hl.nInits, sf.nInits], shared := by rw [hl.shared, sf.shared]
+           stop := by rw [hl.stop, sf.stop], nInitSearch := by rw [hl.nInitSearch, hn], nInitsNorm := by rw [hl.nInitsNorm, hn] }
+  · rw [hl.rows, sf.rows]; simp; omega
+  · rw [hl.evalT, sf.evalT]; simp; omega
+  · rw [hl.iterT, sf.iterT]; simp; omega
+  · rw [hl.posL, sf.posL]; simp; omega
+  · rw [hl.scoreL, sf.scoreL]; simp; omega
   · rw [hl.nInitTotal, hs.nInitTotal, hn]; split <;> omega
   · rw [hl.nIterTotal, hs.nIterTotal, hn]; split <;> omega
 
@@ -293,11 +234,12 @@ theorem searchLoop_frame {b : Backend σ} {sp : Space} {obj : Obj} {c : Call} :
     · rename_i x hx
       obtain ⟨d1, cs1⟩ := x
       have sf := searchStep_frame hinv (by omega) hx
+      obtain ⟨p, v, e, sfa, _⟩ := sf.facts
       simp only at h
       split at h
       · simp at h
       · rename_i stop hstop
-        have hinv1 : cs1.nInitSearch = min (i + 1) cs1.nInitsNorm := by rw [sf.nInitSearch, sf.nInitsNorm]
+        have hinv1 : cs1.nInitSearch = min (i + 1) cs1.nInitsNorm := by rw [sf.nInitSearch, sfa.nInitsNorm]
         split at h
         · simp only [Except.ok.injEq, Prod.mk.injEq] at h
           obtain ⟨hd, hcs, hk⟩ := h
@@ -335,28 +277,29 @@ theorem searchLoop_noCriterion {b : Backend σ} {sp : Space} {obj : Obj} {c : Ca
     · rename_i x hx
       obtain ⟨d1, cs1⟩ := x
       have sf := searchStep_frame hinv (by omega) hx
+      obtain ⟨p, v, e, sfa, _⟩ := sf.facts
       have hc1 : cs1.stop.maxTime = none ∧ cs1.stop.maxScore = none ∧ cs1.stop.early = none := by
-        rw [sf.stop]; exact hc
+        rw [sfa.stop]; exact hc
       simp only [checkStop_noCriterion hc1] at h
-      have hinv1 : cs1.nInitSearch = min (i + 1) cs1.nInitsNorm := by rw [sf.nInitSearch, sf.nInitsNorm]
+      have hinv1 : cs1.nInitSearch = min (i + 1) cs1.nInitsNorm := by rw [sf.nInitSearch, sfa.nInitsNorm]
       have := ih (i + 1) d1 cs1 d' cs' k hinv1 (by omega) hc1 (by simpa using h)
       omega
-end GFO
 
-namespace GFO
-variable {σ : Type}
+/-! ### one `search()` call -/
 
 theorem initSearch_ok {sp : Space} {c : Call} {d : DState σ} {cs : CState} (h : initSearch sp c d = .ok cs) :
     cs.nInitSearch = 0 ∧ cs.nIterSearch = 0 ∧ cs.nInitsNorm = min (d.nInits - d.nInitTotal) c.nIter ∧
     cs.stop.maxTime = c.maxTime ∧ cs.stop.maxScore = c.maxScore ∧ cs.stop.early = c.early ∧
-    cs.stop.startTime = d.clock ∧ cs.pbar = {} ∧ cs.calls = [] ∧ cs.fresh = [] := by
+    cs.stop.startTime = d.clock ∧ cs.pbar = {} ∧ cs.calls = [] ∧ cs.fresh = [] ∧
+    initMemory sp c d.shared = .ok cs.mem := by
   unfold initSearch at h
   simp only [bind, Except.bind, pure, Except.pure] at h
   split at h
   · simp at h
-  · simp only [Except.ok.injEq] at h
+  · rename_i m hm
+    simp only [Except.ok.injEq] at h
     subst h
-    simp
+    simp [hm]
 
 theorem finishSearch_ok {sp : Space} {c : Call} {d d' : DState σ} {cs : CState} {steps : Nat} {r : CallResult}
     (h : finishSearch sp c d cs steps = .ok (d', r)) :
@@ -398,49 +341,57 @@ structure CallFrame (c : Call) (d d' : DState σ) (r : CallResult) : Prop where
   nInitTotal : d'.nInitTotal = d.nInitTotal + min r.steps (d.nInits - d.nInitTotal)
   inv : DInv d → DInv d'
 
-theorem searchCall_frame {b : Backend σ} {sp : Space} {obj : Obj} {c : Call} {d d' : DState σ} {r : CallResult}
-    (h : searchCall b sp obj c d = .ok (d', r)) : CallFrame c d d' r := by
+/-- unfolding of `searchCall` into its three parts -/
+theorem searchCall_parts {b : Backend σ} {sp : Space} {obj : Obj} {c : Call} {d d' : DState σ} {r : CallResult}
+    (h : searchCall b sp obj c d = .ok (d', r)) :
+    ∃ cs d1 cs1 steps, initSearch sp c d = .ok cs ∧ searchLoop b sp obj c c.nIter 0 d cs = .ok (d1, cs1, steps) ∧
+      finishSearch sp c d1 cs1 steps = .ok (d', r) := by
   unfold searchCall at h
   simp only [bind, Except.bind] at h
   split at h
   · simp at h
   · rename_i cs hcs
-    obtain ⟨h0, _, hnorm, hmt, hms, hes, _⟩ := initSearch_ok hcs
     split at h
     · simp at h
     · rename_i x hx
       obtain ⟨d1, cs1, steps⟩ := x
-      simp only at h
-      have hf := finishSearch_ok h
-      obtain ⟨hrows, hposL, hscoreL, hevalT, hiterT, hnit, hnitr, hnin, _, _, _, _, hsteps, _⟩ := hf
-      have hl := searchLoop_frame c.nIter 0 d cs d1 cs1 steps (by rw [h0]; omega) (by omega) hx
-      obtain ⟨_, hk, lf⟩ := hl
-      have hstepsLe : steps ≤ c.nIter := by omega
-      have hinitT : d1.nInitTotal = d.nInitTotal + min steps (d.nInits - d.nInitTotal) := by
-        rw [lf.nInitTotal, hnorm]; omega
-      refine { stepsLe := by rw [hsteps]; exact hstepsLe, stepsExact := ?_, rows := ?_, rowsPrefix := ?_, nInits := ?_,
-               nInitTotal := ?_, inv := ?_ }
-      · intro hc
-        rw [hsteps]
-        have := searchLoop_noCriterion c.nIter 0 d cs d1 cs1 steps (by rw [h0]; omega) (by omega)
-          (by rw [hmt, hms, hes]; exact hc) hx
-        omega
-      · rw [hrows, hsteps, lf.rows]; omega
-      · rw [hrows]; exact lf.rowsPrefix
-      · rw [hnin, lf.nInits]
-      · rw [hnit, hsteps, hinitT]
-      · intro inv
-        have hr := lf.rows
-        refine { counters := ?_, posL := ?_, scoreL := ?_, evalT := ?_, iterT := ?_, inits := ?_ }
-        · rw [hnit, hnitr, hrows, lf.nInitTotal, lf.nIterTotal, hr]
-          have := inv.counters
-          have : min steps cs.nInitsNorm - min 0 cs.nInitsNorm ≤ steps - 0 := by omega
-          omega
-        · rw [hposL, hrows, lf.posL, hr, inv.posL]
-        · rw [hscoreL, hrows, lf.scoreL, hr, inv.scoreL]
-        · rw [hevalT, hrows, lf.evalT, hr, inv.evalT]
-        · rw [hiterT, hrows, lf.iterT, hr, inv.iterT]
-        · rw [hnit, hnin, hrows, hinitT, lf.nInits, hr]
-          have := inv.inits
-          omega
+      exact ⟨cs, d1, cs1, steps, hcs, hx, h⟩
+
+theorem searchCall_frame {b : Backend σ} {sp : Space} {obj : Obj} {c : Call} {d d' : DState σ} {r : CallResult}
+    (h : searchCall b sp obj c d = .ok (d', r)) : CallFrame c d d' r := by
+  obtain ⟨cs, d1, cs1, steps, hcs, hx, hfin⟩ := searchCall_parts h
+  obtain ⟨h0, _, hnorm, hmt, hms, hes, _⟩ := initSearch_ok hcs
+  have hf := finishSearch_ok hfin
+  obtain ⟨hrows, hposL, hscoreL, hevalT, hiterT, hnit, hnitr, hnin, _, _, _, _, hsteps, _⟩ := hf
+  have hl := searchLoop_frame c.nIter 0 d cs d1 cs1 steps (by rw [h0]; omega) (by omega) hx
+  obtain ⟨_, hk, lf⟩ := hl
+  have hstepsLe : steps ≤ c.nIter := by omega
+  have hinitT : d1.nInitTotal = d.nInitTotal + min steps (d.nInits - d.nInitTotal) := by
+    rw [lf.nInitTotal, hnorm]; omega
+  refine { stepsLe := by rw [hsteps]; exact hstepsLe, stepsExact := ?_, rows := ?_, rowsPrefix := ?_, nInits := ?_,
+           nInitTotal := ?_, inv := ?_ }
+  · intro hc
+    rw [hsteps]
+    have := searchLoop_noCriterion c.nIter 0 d cs d1 cs1 steps (by rw [h0]; omega) (by omega)
+      (by rw [hmt, hms, hes]; exact hc) hx
+    omega
+  · rw [hrows, hsteps, lf.rows]; omega
+  · rw [hrows]; exact lf.rowsPrefix
+  · rw [hnin, lf.nInits]
+  · rw [hnit, hsteps, hinitT]
+  · intro inv
+    have hr := lf.rows
+    refine { counters := ?_, posL := ?_, scoreL := ?_, evalT := ?_, iterT := ?_, inits := ?_ }
+    · rw [hnit, hnitr, hrows, lf.nInitTotal, lf.nIterTotal, hr]
+      have := inv.counters
+      have : min steps cs.nInitsNorm - min 0 cs.nInitsNorm ≤ steps - 0 := by omega
+      omega
+    · rw [hposL, hrows, lf.posL, hr, inv.posL]
+    · rw [hscoreL, hrows, lf.scoreL, hr, inv.scoreL]
+    · rw [hevalT, hrows, lf.evalT, hr, inv.evalT]
+    · rw [hiterT, hrows, lf.iterT, hr, inv.iterT]
+    · rw [hnit, hnin, hrows, hinitT, lf.nInits, hr]
+      have := inv.inits
+      omega
+
 end GFO
